@@ -145,6 +145,7 @@ def run(ctx):
     transform_formulas(ctx)
     iorules.cast_widths(ctx)
     iorules.import_fallback(ctx, keys)
+    iorules.export_dispatch(ctx, keys[0][0])
 
 
 # ---------------------------------------------------------------- the transformations as formulas
@@ -239,19 +240,37 @@ def transform_formulas(ctx):
         "real": [_Q(V.atom("x%d" % c)) for c in range(3)], "imag": [_Q(V.atom("y%d" % c)) for c in range(3)],
         "abs": [_Q(norm2, 1)], "abs_squared": [_Q(norm2)], "log_abs": [_Q(norm2, 1, True)],
     }
-    rets = {s.value for s in S if s.op == "return"}
+    from .. import dispatch
+
+    body = [s for s in tf.body if not (isinstance(s, ast.Expr) and isinstance(s.value, ast.Constant))]
+
+    def returned(mode_value):
+        """Expression (source text) _transform_array returns for this mode on a 2-d array (abstract execution of the dispatch)."""
+        effs = dispatch.effects(body, {modep: mode_value, a + ".ndim": 2}, "_transform_array")
+        sets = {e[1]: e[2] for e in effs if e[0] == "set"}
+        ret = [e for e in effs if e[0] == "return"]
+        if len(ret) != 1:
+            return None
+        txt = ret[0][1]
+        seen = 0
+        while isinstance(txt, str) and txt in sets and seen < 10:
+            txt, seen = sets[txt], seen + 1
+        return txt if isinstance(txt, str) else None
+
     for mode, w in want.items():
-        lit = "(%s Eq '%s')" % tuple(sorted([modep, "'%s'" % mode])) if False else None
-        cand = [s for s in S if s.op == "=" and isinstance(s.tnode, ast.Name) and s.guards and s.guards[-1][1] is True and ("'%s'" % mode) in s.guards[-1][0] and modep in s.guards[-1][0]
-                and all(not g[1] for g in s.guards[:-1])]
-        ok, why = False, "no assignment under `%s == '%s'`" % (modep, mode)
-        if len(cand) == 1:
-            try:
-                got = _tf_eval(cand[0].vnode, comps, a)
-                ok = len(got) == len(w) and all(_q_equal(g, x) for g, x in zip(got, w))
-                why = "`%s` is not %s for complex vector-valued data" % (unparse(cand[0].vnode)[:90], {"real": "the real part", "imag": "the imaginary part", "abs": "sqrt(sum_c |a_c|^2)", "abs_squared": "sum_c |a_c|^2", "log_abs": "log sqrt(sum_c |a_c|^2)"}[mode])
-            except AnalysisError as e:
-                raise
-        r.check(ok, "mode %s" % mode, IO, tf.name, cand[0].node.lineno if cand else tf.lineno, "transformation %s" % mode, why)
+        txt = returned(mode)
+        ok, why = False, "nothing is returned for mode '%s'" % mode
+        if txt is not None:
+            if txt.replace(" ", "") in ("%s(%s)" % (modep, a), a):
+                got = []  # the callable / pass-through path is taken for a documented string mode
+            else:
+                got = _tf_eval(ast.parse(txt, mode="eval").body, comps, a)
+            ok = len(got) == len(w) and all(_q_equal(g, x) for g, x in zip(got, w))
+            why = "for mode '%s' the function returns `%s`, which is not %s for complex vector-valued data" % (mode, txt[:90], {"real": "the real part", "imag": "the imaginary part", "abs": "sqrt(sum_c |a_c|^2)", "abs_squared": "sum_c |a_c|^2", "log_abs": "log sqrt(sum_c |a_c|^2)"}[mode])
+        r.check(ok, "mode %s" % mode, IO, tf.name, tf.lineno, "transformation %s" % mode, why)
+    none = returned(None)
+    r.check(none == a, "mode None", IO, tf.name, tf.lineno, "transformation None", "with mode None the function returns `%s`, not the data unchanged" % none)
+    call = returned("‹callable›")
+    r.check(call is not None and call.replace(" ", "") == "%s(%s)" % (modep, a), "mode callable", IO, tf.name, tf.lineno, "transformation callable", "a callable mode returns `%s`, not %s(%s)" % (call, modep, a))
     bad = ast.parse("_np.sqrt(_np.abs(_np.sum(a ** 2, axis=0, keepdims=True)))", mode="eval").body
     r.must_fire(not _q_equal(_tf_eval(bad, comps, "a")[0], want["abs"][0]), "|sum a_c^2| instead of sum |a_c|^2")
